@@ -238,8 +238,11 @@ def message_case(draw, names=None, profile="full", finite=False, xml_safe=False,
         insts = []
         for _ in range(count):
             d = {}
+            # in the `fill` profile a third of the block instances are fully specified (and then not marked for default-filling,
+            # see build()), so marked and unmarked instances mix within one block list
+            partial = fill and draw(st.integers(0, 2)) != 0
             for v in b.variables:
-                if fill and draw(st.booleans()):
+                if partial and draw(st.booleans()):
                     continue
                 d[v.name] = draw(value_strategy(v, zc=zc, finite=finite, xml_safe=xml_safe, allow_str=allow_str, dbl_nul=dbl_nul))
             insts.append(d)
@@ -273,7 +276,7 @@ def build(case) -> Message:
         tb = tmpl.get_block(bname)
         msg.create_block_list(bname)
         for d in insts:
-            blk = Block(bname, fill_missing=case["fill"])
+            blk = Block(bname, fill_missing=bool(case["fill"]) and len(d) < len(tb.variables))
             for k, v in d.items():
                 blk[k] = rich_value(tb.get_variable(k), v)
             msg.add_block(blk)
